@@ -463,3 +463,16 @@ Definition handleUnsets_field (o : hopts) (have_resp : bool) (f : fdesc) (r : re
            | WH ok r' => if ok then TJ false r' else TJ true r'
            end
   end.
+
+(* the field loop of do / doRecurse over one struct's PRESENT fields (each with its text), in wire order: the JSON member names written
+   so far and the response object are the state; an error of writeHttpValue ends the conversion *)
+Inductive t2j_state := TS (names : list (list Z)) (r : response) | TSErr.
+Fixpoint t2j_fields_loop (o : hopts) (l : list (fdesc * list Z)) (names : list (list Z)) (r : response) : t2j_state :=
+  match l with
+  | [] => TS names r
+  | (f, text) :: rest =>
+    match t2j_field o f r text with
+    | TJErr => TSErr
+    | TJ in_body r' => t2j_fields_loop o rest (if in_body then names ++ [f_name f] else names) r'
+    end
+  end.
